@@ -518,6 +518,10 @@ fn gen_single(t: &mut Tape, b: &Built, f: &mut Features) -> String {
             f.add("describe");
             let id = &b.commit_ids[t.below(b.commit_ids.len())];
             let len = *t.pick(&[4usize, 7, 10]);
+            if b.names.iter().any(|n| *n == id[..len]) {
+                // a branch is called like the hex part: see the known class of that name
+                f.add("describe-hex-is-ref-name");
+            }
             match t.below(4) {
                 0 => format!("v1-{}-g{}", t.below(5), &id[..len]),
                 1 => format!("anything-g{}", &id[..len]),
@@ -916,6 +920,7 @@ fn load_known() -> HashSet<String> {
 fn signature(git: &Outcome, gix: &Outcome, f: &Features, tag_ids: &BTreeMap<String, String>) -> String {
     const PRIORITY: &[&str] = &[
         "colon-form-before-range-syntax",
+        "describe-hex-is-ref-name",
         "minus-parent-after-navigation",
         "describe-with-suffix",
         "tilde-zero",
@@ -989,7 +994,11 @@ fn signature(git: &Outcome, gix: &Outcome, f: &Features, tag_ids: &BTreeMap<Stri
     };
     if matches!(
         feature,
-        "colon-form-before-range-syntax" | "tilde-zero" | "describe-with-suffix" | "minus-parent-after-navigation"
+        "colon-form-before-range-syntax"
+            | "tilde-zero"
+            | "describe-with-suffix"
+            | "minus-parent-after-navigation"
+            | "describe-hex-is-ref-name"
     ) {
         // one class whatever the direction
         return feature.to_string();
